@@ -89,8 +89,12 @@ func runC20(c []string) (res0 string) {
 	node := slot.SyncNode{Source: hosts[0], Slaves: hosts[1:], SourcePassword: "pw"}
 	sup := slotsupervisor.VerifNew(node, factory, maxr)
 	res, err := sup.GetSlotState()
-	if err != nil || res == nil {
+	if err != nil {
 		return fmt.Sprintf("%s err %d", c[0], total)
+	}
+	if res == nil {
+		// neither a node nor an error: the caller would go on with a nil topology
+		return fmt.Sprintf("%s nilres %d", c[0], total)
 	}
 	var sl []string
 	for _, s := range res.Slaves {
